@@ -332,7 +332,14 @@ func RunC14(prop string, tr *Trace, sc *Script, rec *Recorder, scratch string) *
 			}
 			return Op{K: "halt", A: []int64{int64(r.U64() >> 1), int64(r.Intn(int(cfg["max_gap"]) + 1)), int64(r.Intn(3))}}, true
 		}
-		switch r.Pick([]int{30, 25, 20, 25}) {
+		switch r.Pick([]int{30, 25, 20, 25, 15}) {
+		case 4:
+			// a reorg that would remove blocks but fails half way (storage fault): nothing is removed, the halt stays
+			n := len(A.blocks())
+			if n == 0 {
+				return Op{K: "queries"}, true
+			}
+			return Op{K: "failreorg", A: []int64{int64(1 + r.Intn(min(n, 3))), int64(r.Intn(3)), int64(1 + r.Intn(12))}}, true
 		case 0:
 			return Op{K: "block", A: []int64{int64(r.U64() >> 1), int64(r.Intn(int(cfg["max_gap"]) + 1))}}, true
 		case 1:
@@ -436,6 +443,53 @@ func RunC14(prop string, tr *Trace, sc *Script, rec *Recorder, scratch string) *
 				return v
 			}
 			rec.Step("Q")
+		case "failreorg":
+			if !halted {
+				continue
+			}
+			bl := A.blocks()
+			a := int(op.Arg(0))
+			if a > len(bl) {
+				a = len(bl)
+			}
+			if a == 0 {
+				continue
+			}
+			first := bl[len(bl)-a].Num
+			var pl *FaultPlan
+			switch op.Arg(1) {
+			case 0:
+				pl = &FaultPlan{FailAt: int(op.Arg(2))}
+			case 1:
+				pl = &FaultPlan{FailCommit: true}
+			default:
+				pl = &FaultPlan{DenyAllWrites: true}
+			}
+			pre, _ := rawDigest(A.store)
+			ArmFault(A.store.Path(), pl)
+			err := A.store.Reorg(first)
+			DisarmFault(A.store.Path())
+			if err == nil {
+				// the fault did not reach this reorg (fewer statements): it went through like an ordinary one;
+				// handled by replaying it as such
+				dropped := A.rewindModel(first)
+				if dropped > 0 && !A.store.IsHalted() {
+					halted = false
+					rec.Stats.Inc("unhalting_reorgs")
+					// keep B and C simple: end the run here (the ordinary reorg op covers what follows)
+					return nil
+				}
+				continue
+			}
+			rec.Stats.Inc("failed_reorgs_while_halted")
+			rec.Step("RF")
+			post, _ := rawDigest(A.store)
+			if post != pre {
+				return fail("unhalt", "failed-reorg-changed-store", "Reorg(%d) failed (%v) but the stored tables changed", first, err)
+			}
+			if !A.store.IsHalted() {
+				return fail("unhalt", "unhalted-by-failed-reorg", "Reorg(%d) failed (%v) and removed nothing, but it cleared the halted state", first, err)
+			}
 		case "reorg":
 			if !halted {
 				continue
